@@ -3,8 +3,8 @@ package c11
 
 import (
 	"bytes"
-	"regexp"
 	"context"
+	"encoding/base64"
 	"encoding/json"
 	"errors"
 	"fmt"
@@ -13,6 +13,7 @@ import (
 	"mime/multipart"
 	"net/http"
 	"net/url"
+	"regexp"
 	"sort"
 	"strings"
 	"time"
@@ -63,13 +64,13 @@ func init() {
 }
 
 type env struct {
-	rec               *sim.RPCRecorder
-	open, auth        *rest.API
-	openURL, authURL  string
-	scriptErr         error
-	answers           map[string]interface{}
-	hc                *http.Client
-	clOpen            client.Client
+	rec              *sim.RPCRecorder
+	open, auth       *rest.API
+	openURL, authURL string
+	scriptErr        error
+	answers          map[string]interface{}
+	hc               *http.Client
+	clOpen           client.Client
 }
 
 const user, pass = "verif-user", "verif-pass"
@@ -202,7 +203,12 @@ func (e *env) do(method, u string, body io.Reader, ctype string, creds [2]string
 	if ctype != "" {
 		req.Header.Set("Content-Type", ctype)
 	}
-	if creds[0] != "" || creds[1] != "" {
+	switch {
+	case creds[0] == "<empty>": // an explicit Basic header with an empty user name
+		req.SetBasicAuth("", creds[1])
+	case creds[0] == "<raw>": // a literal Authorization header
+		req.Header.Set("Authorization", creds[1])
+	case creds[0] != "" || creds[1] != "":
 		req.SetBasicAuth(creds[0], creds[1])
 	}
 	req.Close = true
@@ -251,8 +257,8 @@ func (e *env) checkSingleDoc(c *fw.Ctx, what string, method string, r response) 
 type routeSpec struct {
 	name   string
 	method string
-	pat    *regexp.Regexp // the route's path pattern
-	hashAt int            // index of the path segment that must be a CID (0 = none)
+	pat    *regexp.Regexp          // the route's path pattern
+	hashAt int                     // index of the path segment that must be a CID (0 = none)
 	path   func(r *fw.Rand) string // a well-formed instance
 	rpc    func(q url.Values) string
 	body   func() (io.Reader, string)
@@ -780,7 +786,11 @@ func malformed(c *fw.Ctx, e *env, r *fw.Rand) {
 // ------------------------------------------------------------- auth
 
 func authSweep(c *fw.Ctx, e *env, r *fw.Rand) {
-	bad := [][2]string{{"", ""}, {user, "wrong"}, {"wrong", pass}, {"", pass}, {user, ""}, {pass, user}, {user + "x", pass}, {user, pass + " "}}
+	bad := [][2]string{{"", ""}, {user, "wrong"}, {"wrong", pass}, {"", pass}, {user, ""}, {pass, user}, {user + "x", pass}, {user, pass + " "},
+		// unknown or empty user with an empty password, explicit empty header, other schemes, malformed headers
+		{"nobody", ""}, {"<empty>", ""}, {"<empty>", pass}, {strings.ToUpper(user), pass}, {user, strings.ToUpper(pass)},
+		{"<raw>", "Bearer " + pass}, {"<raw>", "Basic !!!"}, {"<raw>", "Basic " + base64.StdEncoding.EncodeToString([]byte(user))},
+		{"<raw>", "Basic " + base64.StdEncoding.EncodeToString([]byte(user+":"+pass+":x"))}, {"<raw>", "basic"}, {"<raw>", ""}}
 	rs := routes()
 	for _, cr := range bad {
 		for _, rt := range rs {
